@@ -29,23 +29,24 @@ def build(ck, src, obs=None):
     ok = src.bool("decode.ok")
     protocol = src.bv("msg.protocol", 64)
     data = src.bv("msg.data", 64)
-    frm = src.bv("msg.from", 64)
+    frm_s = src.short_string("msg.from")      # claimed sender and connection identity are modelled byte by byte (<= 4 printable bytes)
+    source_s = src.short_string("conn.source")
+    frm, source = frm_s.id, source_s.id
     ts = src.bv("msg.timestamp", 64)
-    source = src.bv("conn.source", 64)
     extra = []
     # string lengths are part of the input (pinned so that the native driver can build strings of exactly these lengths)
     strlen = z3.Function("strlen", z3.BitVecSort(64), z3.BitVecSort(64))
-    for nm, sid in (("msg.protocol", protocol), ("msg.from", frm), ("conn.source", source)):
+    for nm, sid in (("msg.protocol", protocol),):
         ln = src.pin(nm + ".len", strlen(sid))
         extra.append(z3.And(z3.UGE(ln, 17), z3.ULE(ln, 200)))
     if obs is None:
         st = State()
         adt = eng.struct_adt("WireMessage")
-        vals = {"protocol": VStr(protocol), "data": VStr(data), "from": VStr(frm), "timestamp": ts}
+        vals = {"protocol": VStr(protocol), "data": VStr(data), "from": frm_s, "timestamp": ts}
         msg = VStruct([vals[f] for f, _ in adt.fields], "WireMessage")
         install_decoder(eng, ok, msg)
         rbytes = eng.alloc(st, VSeq([], bv(0, 64)))
-        rsrc = eng.alloc(st, VStr(source))
+        rsrc = eng.alloc(st, source_s)
         eng.clock_readings = []
         st2, res = eng.call(ck.fn(r"^network::parse_protocol_message$|^parse_protocol_message$"), [rbytes, rsrc], st)
         now = st2.clock
@@ -95,7 +96,7 @@ def run(tier):
         for g, f in R["reach"].items():
             ck.reach(f"frame/{g}", R["eng"], R["hyps"], f)
         ck.side("frame/side", R["eng"], R["hyps"], on_sat=rp)
-        ck.out.samples.append({"obligation": "frame", "inputs": "arbitrary decode outcome (ok/err; protocol, data, from as abstract strings; timestamp: u64), arbitrary connection identity, arbitrary clock < 2^40 s",
+        ck.out.samples.append({"obligation": "frame", "inputs": "arbitrary decode outcome (ok/err; protocol and data abstract; claimed `from` and the connection identity as strings of 0..4 printable bytes; timestamp: u64), arbitrary clock < 2^40 s",
                                "goals": list(R["goals"])})
 
     ck.guarded("frame", reg)
@@ -105,7 +106,7 @@ def run(tier):
     ck.out.outside = ["that message handling returns normally for every byte string up to 128 KiB and the decoders' allocation bounds (postcard decoding is summarised, not executed)",
                       "the 64 KiB pre-decode size check, find-node count cap and 512-byte value/record checks (async handlers: DhtNetworkManager::handle_dht_message, DhtCoreEngine::handle_request, DhtRecord)",
                       "TransportHandle::parse_request_envelope"]
-    ck.out.assumptions = ["tracing macros are effect-free", "strings are abstract values compared by identity"]
+    ck.out.assumptions = ["tracing macros are effect-free", "topic and payload are abstract values compared by identity; the claimed sender and the connection identity are byte-level strings of at most 4 printable ASCII bytes"]
     ck.out.trusted.append("z3 4.8.12 / z3 5.1 / cvc5 1.0 portfolio")
     return ck.finish("./check C05 --tier " + tier)
 
